@@ -49,7 +49,7 @@ def lane_setup():
     kw = keyword
     TIMEOUT_VAL = keyword.keyword("timed-out")
     for n in ("deref", "force", "deliver", "realized?", "future-call", "future-done?", "bound-fn*",
-              "with-bindings*", "future-cancel"):
+              "with-bindings*", "future-cancel", "future-cancelled?", "future?"):
         _fns[n] = common.core_fn(n)
     trace.register(atom_mod.Atom, [".py"], opcode=True)
     trace.register(delay_mod.Delay, [".py"], opcode=True)
@@ -74,7 +74,9 @@ def gen(rng, tier, index):
         tasks = [[{"op": rng.choice(["deref", "deref", "force", "realized?"])}
                   for _ in range(rng.choice([1, 2, 3]))] for _ in range(ntasks)]
         body = {"sleep": rng.choice([0, 0, 0.01]) if faults else 0,
-                "throw_first": faults and rng.random() < 0.35, "points": rng.choice([1, 2, 3])}
+                "throw_first": faults and rng.random() < 0.35, "points": rng.choice([1, 2, 3]),
+                # the body BLOCKS on a promise that an independent task delivers (after a virtual delay or at once)
+                "gate": rng.choice([0, 0.01, 0.03]) if faults and rng.random() < 0.3 else None}
         return {"kind": "delay", "tasks": tasks, "body": body, "faults": faults}
     if kind == "promise":
         tasks = []
@@ -87,6 +89,8 @@ def gen(rng, tier, index):
                     op = {"op": "deliver", "v": vid}
                     if rng.random() < 0.3:
                         op["falsy"] = rng.choice(["nil", "false", "zero", "empty"])   # delivered values that are falsy
+                    if rng.random() < 0.25:
+                        op["call"] = True          # (p v): a promise is a function that delivers
                     vid += 1
                 elif r < 0.5:
                     op = {"op": "deref"}
@@ -100,6 +104,7 @@ def gen(rng, tier, index):
             tasks.append(ops)
         return {"kind": "promise", "tasks": tasks, "faults": faults}
     tasks = []
+    cancels = rng.random() < 0.3          # runs in which the future may be cancelled while queued, running or done
     for t in range(ntasks):
         ops = []
         for j in range(rng.choice([1, 2, 3])):
@@ -110,15 +115,18 @@ def gen(rng, tier, index):
                 op = {"op": "tderef", "ms": rng.choice([0, 10, 10, 20, 50])}
             else:
                 op = {"op": rng.choice(["realized?", "future-done?"])}
+            if cancels and rng.random() < 0.3:
+                op = {"op": rng.choice(["future-cancel", "future-cancel", "future-cancelled?"])}
             if faults and rng.random() < 0.3:
                 op["pre_sleep"] = rng.choice([0.01, 0.02, 0.05])
             ops.append(op)
         tasks.append(ops)
     body = {"sleep": rng.choice([0, 0.01, 0.02, 0.05]) if faults else 0,
             "exc": rng.choice(EXC_PALETTE) if faults and rng.random() < 0.5 else None,
-            "points": rng.choice([1, 2]), "ret": rng.choice(["int", "int", "int", "nil", "false"])}
+            "points": rng.choice([1, 2]), "ret": rng.choice(["int", "int", "int", "nil", "false"]),
+            "gate": rng.choice([0, 0.01, 0.03]) if faults and rng.random() < 0.3 else None}
     return {"kind": "future", "tasks": tasks, "body": body, "faults": faults,
-            "workers": rng.choice([1, 2, 3]), "blocker": faults and rng.random() < 0.3}
+            "workers": rng.choice([1, 2, 3]), "blocker": (faults and rng.random() < 0.3) or (cancels and rng.random() < 0.6)}
 
 
 def shrink(workload):
@@ -135,8 +143,8 @@ def shrink(workload):
                 yield w
     b = workload.get("body")
     if b:
-        for key, val in (("sleep", 0), ("throw_first", False), ("points", 1)):
-            if b.get(key) and b.get(key) != val:
+        for key, val in (("sleep", 0), ("throw_first", False), ("points", 1), ("gate", None)):
+            if b.get(key) is not None and b.get(key) is not False and b.get(key) != val:
                 w = copy.deepcopy(workload)
                 w["body"][key] = val
                 yield w
@@ -158,7 +166,8 @@ def nontrivial(rec):
 def describe():
     return {
         "rule": "workload = one delay / promise / future raced by 2-4 tasks x 1-3 ops (deref, timed deref, force, "
-                "deliver, realized?) with bodies that yield, sleep (virtual) or throw; pool of 1-3 workers, optional "
+                "deliver - also as (p v) -, realized?, future-done?, future-cancel, future-cancelled?) with bodies that yield, "
+                "sleep (virtual), block on a promise another task delivers, or throw; pool of 1-3 workers, optional "
                 "blocker job; forward clock jumps in half the runs. Non-trivial = more than two baton hand-offs AND "
                 "(a sim lock was contended OR a timer fired OR an injected fault fired); distinct = distinct "
                 "(switch signature, workload).",
@@ -169,7 +178,8 @@ def describe():
                  "runtime._deref_blocking", "real OS threads incl. pool workers (one runnable at a time)"],
         "stub": ["threading.Lock/RLock/Condition/Semaphore/Thread and queue.SimpleQueue under those classes (sim)",
                  "time.monotonic (virtual clock)", "OS scheduler (seeded baton kernel)"],
-        "fault_kinds": ["body_throw", "body_sleep", "pre_sleep", "clock_jump", "pool_blocker", "timeout_fired"],
+        "fault_kinds": ["body_throw", "body_sleep", "body_blocks", "pre_sleep", "clock_jump", "pool_blocker", "timeout_fired",
+                        "cancel", "cancel_won"],
         "assumptions": ["sim Condition: no spurious wake-ups, FIFO notify (one legal behaviour)",
                         "virtual time advances only when nothing is runnable or by an injected forward jump"],
         "hashseeds": [0],
@@ -267,6 +277,24 @@ def run(workload, k):
     return _run_future(workload, k)
 
 
+def _mk_gate(k, rec, b):
+    """A body that BLOCKS: it derefs a promise which an independent task delivers (after a virtual delay)."""
+    if b.get("gate") is None:
+        return None, None
+    gate = Promise()
+
+    def opener():
+        if b["gate"]:
+            P.sleep(b["gate"])
+        P.point("gate")
+        gate.deliver(True)
+
+    def wait():
+        rec.fault("body_blocks")
+        _fns["deref"](gate)
+    return opener, wait
+
+
 def _spawn_tasks(k, rec, workload, exec_op):
     def mk(ti, ops):
         def body():
@@ -295,6 +323,8 @@ def _run_delay(workload, k):
     b = workload["body"]
     st = {"active": 0, "n": 0, "max_active": 0, "threw_in": []}
 
+    opener, gate_wait = _mk_gate(k, rec, b)
+
     def body():
         st["n"] += 1
         n = st["n"]
@@ -305,6 +335,8 @@ def _run_delay(workload, k):
         try:
             for _ in range(b["points"]):
                 P.point("body")
+            if gate_wait:
+                gate_wait()
             if b["sleep"]:
                 rec.fault("body_sleep")
                 P.sleep(b["sleep"])
@@ -327,6 +359,8 @@ def _run_delay(workload, k):
         return _fns["realized?"](d)
 
     _spawn_tasks(k, rec, workload, exec_op)
+    if opener:
+        k.spawn(opener, name="G")
     k.run()
     kv = R.kernel_failure_verdict(ID, k)
     if kv is not None:
@@ -407,6 +441,8 @@ def _run_promise(workload, k):
     def exec_op(op, ti, oi):
         kind = op["op"]
         if kind == "deliver":
+            if op.get("call"):
+                return p(_pval(op))
             return _fns["deliver"](p, _pval(op))
         if kind == "deref":
             return _fns["deref"](p)
@@ -469,10 +505,14 @@ def _run_future(workload, k):
     b = workload["body"]
     st = {"set_at": None, "body_end": None, "fut": None}
 
+    opener, gate_wait = _mk_gate(k, rec, b)
+
     def body():
         rec.body.append(("start", k.ev("bstart"), k.now, k.cur.name, 1))
         for _ in range(b["points"]):
             P.point("body")
+        if gate_wait:
+            gate_wait()
         if b["sleep"]:
             rec.fault("body_sleep")
             P.sleep(b["sleep"])
@@ -492,6 +532,11 @@ def _run_future(workload, k):
             return _fns["deref"](fut, op["ms"], TIMEOUT_VAL)
         if kind == "future-done?":
             return _fns["future-done?"](fut)
+        if kind == "future-cancel":
+            rec.fault("cancel")
+            return _fns["future-cancel"](fut)
+        if kind == "future-cancelled?":
+            return _fns["future-cancelled?"](fut)
         return _fns["realized?"](fut)
 
     def main():
@@ -507,6 +552,8 @@ def _run_future(workload, k):
                 st["set_at"] = (k.ev("fset"), k.now)
             fut._future.add_done_callback(on_done)
             ths = []
+            if opener:
+                ths.append(P.SimThread(target=opener, name="G"))
             for ti, ops in enumerate(workload["tasks"]):
                 def tb(ti=ti, ops=ops):
                     for oi, op in enumerate(ops):
@@ -535,6 +582,36 @@ def _run_future(workload, k):
         return R.verdict("harness", f"{ID}/harness", "main task raised " + repr(mt.exc), faults=rec.faults)
     det = {"history": _hist(rec), "body": b, "body_events": rec.body, "set_at": st["set_at"]}
     want = ("exc", _exc_class_name(b["exc"])) if b["exc"] else ("ok", {"int": 4242, "nil": None, "false": False}[b.get("ret", "int")])
+    # ---- cancellation (concurrent.futures contract): cancel succeeds iff the body has not started, and then it
+    # never starts; the outcome of a cancelled future is CancelledError; done/realized? are true from then on
+    starts = [e[1] for e in rec.body if e[0] == "start"]
+    cancels = [o for o, _ in rec.ops if o.kind == "future-cancel"]
+    for o in cancels:
+        if o.result[0] != "ok" or o.result[1] not in (True, False):
+            return R.verdict("violation", f"{ID}/future-op-raised:{o.kind}:{o.result[1]}", det, faults=rec.faults)
+    won = [o for o in cancels if o.result[1] is True]
+    if won:
+        rec.fault("cancel_won", len(won))
+        if starts:
+            return R.verdict("violation", f"{ID}/future-body-ran-although-cancelled", dict(det, op=won[0].to_json()),
+                             faults=rec.faults)
+        want = ("exc", "CancelledError")
+    # a refused cancel means a worker had already taken the job (the stdlib marks it RUNNING before calling the
+    # body, so the body's own first event may come later): the body runs in this history
+    for o in cancels:
+        if o.result[1] is False and not starts:
+            return R.verdict("violation", f"{ID}/future-cancel-refused-but-body-never-ran", dict(det, op=o.to_json()),
+                             faults=rec.faults)
+    for o, _ in rec.ops:
+        if o.kind == "future-cancelled?":
+            if o.result[0] != "ok":
+                return R.verdict("violation", f"{ID}/future-op-raised:{o.kind}:{o.result[1]}", det, faults=rec.faults)
+            if o.result[1] is True and not any(c.inv < o.ret for c in won):
+                return R.verdict("violation", f"{ID}/future-cancelled-without-cancel", dict(det, op=o.to_json()),
+                                 faults=rec.faults)
+            if o.result[1] is False and any(c.ret < o.inv for c in won):
+                return R.verdict("violation", f"{ID}/future-not-cancelled-after-cancel", dict(det, op=o.to_json()),
+                                 faults=rec.faults)
     got_final = []
     for o, _ in rec.ops:
         if o.kind == "deref":
@@ -562,7 +639,7 @@ def _run_future(workload, k):
     if tr:
         return R.verdict("violation", tr[0], dict(det, op=tr[1].to_json(), want=list(want)), faults=rec.faults)
     # realized?/done: true only once the body finished; false never after an outcome was returned
-    fin = [e[1] for e in rec.body if e[0] in ("end", "throw")]
+    fin = sorted([e[1] for e in rec.body if e[0] in ("end", "throw")] + [c.inv for c in won])
     for o, _ in rec.ops:
         if o.kind in ("realized?", "future-done?") and o.result[0] == "ok":
             if o.result[1] is True and (not fin or fin[0] > o.ret):
@@ -571,6 +648,6 @@ def _run_future(workload, k):
                 return R.verdict("violation", f"{ID}/future-unrealized-after-outcome", det, faults=rec.faults)
         elif o.kind in ("realized?", "future-done?"):
             return R.verdict("violation", f"{ID}/future-op-raised:{o.kind}:{o.result[1]}", det, faults=rec.faults)
-    if _monotone(rec):
+    if _monotone(rec) or _monotone(rec, ("future-cancelled?",)):
         return R.verdict("violation", f"{ID}/future-realized-not-monotone", det, faults=rec.faults)
     return R.verdict("pass", faults=rec.faults, extra={"future_runs": 1})
